@@ -1174,7 +1174,10 @@ class NamespaceManager(dict):
                     new_qname = self._default[local_part]
                 elif self._default is None:
                     # no default namespace is defined, reused the one given
+                    # (registered like one set by set_default_namespace, so
+                    # that full URIs in it are recognised as well)
                     self._default = namespace
+                    self[""] = namespace
                     return qname  # no change, return the original
                 else:
                     # different default namespace,
